@@ -1,7 +1,8 @@
 """C19 — stale-trial recovery fails and retries each dead trial at most once.
 
-Specs: Heartbeat/HeartbeatMC (algorithm level: stale query, compare-and-set FAIL, callback, retry chains, crash;
-atomic instance passes, SQLite instance must fail = K1), HeartbeatTrace (property-level monitor).
+Specs: Heartbeat/HeartbeatMC (algorithm level: stale query, compare-and-set FAIL, callback, retry chains, crash, late
+writes of a stale trial's own worker; atomic instance passes, SQLite instance must fail = K1), HeartbeatTrace
+(property-level monitor).
 """
 from __future__ import annotations
 
@@ -400,25 +401,11 @@ def execute_zombie(seed, sched_spec, workdir):
                 pass
 
 
-def _zombie_task(args):
-    """all single preemptions of the sweeper (every source line / SQL statement), the zombie running j of its steps there"""
-    seed, tier = args
+def _zombie_task(specs):
+    """specs: list of (seed, sched_spec)"""
     workdir = tempfile.mkdtemp(prefix="c19z-", dir=os.environ.get("VERIF_SCRATCH_BASE", "/var/tmp"))
     try:
-        if tier == "one":
-            return [execute_zombie(seed[0], tuple(seed[1]), workdir)]
-        if tier == "random":
-            rng = random.Random(seed)
-            return [execute_zombie(seed * 1000 + k, ("random", rng.getrandbits(30), rng.choice([0.2, 0.5])), workdir) for k in range(12)]
-        dry = execute_zombie(seed, ("ij", 10 ** 9, 0), workdir)
-        n, m = dry["steps"]
-        rng = random.Random(seed)
-        out = []
-        for i in range(0, n + 1):
-            js = range(0, m + 1) if tier == "all" else sorted({m, rng.randint(1, m)})
-            for j in js:
-                out.append(execute_zombie(seed, ("ij", i, j), workdir))
-        return out
+        return [execute_zombie(seed, tuple(spec), workdir) for seed, spec in specs]
     finally:
         shutil.rmtree(workdir, ignore_errors=True)
 
@@ -476,13 +463,25 @@ def judge(ctx, traces, label):
 
 def run_zombie(ctx):
     """family: the worker of a stale trial keeps writing while a sweeper is preempted everywhere between its reads and its FAIL"""
-    if ctx.quick:
-        tasks = [(ctx.seed * 1000 + 500 + k, "sample") for k in range(3)] + [(ctx.seed * 1000 + 600 + k, "random") for k in range(4)]
-    else:
-        tasks = [(ctx.seed * 1000 + 500 + k, "all") for k in range(24)] + [(ctx.seed * 1000 + 600 + k, "random") for k in range(60)]
-    traces = []
+    n_cfg, n_full, n_rand = (2, 0, 48) if ctx.quick else (15, 3, 600)      # configurations, of which with the full (i, j) grid
+    cfgs = [ctx.seed * 1000 + 500 + k for k in range(n_cfg)]
+    rng = random.Random(ctx.seed * 7919 + 19)
     with cf.ProcessPoolExecutor(max_workers=16) as ex:
-        for res in ex.map(_zombie_task, tasks):
+        # dry runs: the sweeper alone, then the zombie: how many yield points does each have?
+        dry = [r[0] for r in ex.map(_zombie_task, [[(c, ("ij", 10 ** 9, 0))] for c in cfgs])]
+        specs = []
+        for ci, (c, d) in enumerate(zip(cfgs, dry)):
+            n, m = d["steps"]
+            for i in range(0, n + 1):               # every single preemption of the sweeper ...
+                if ci >= n_full:                    # ... the zombie does all its writes there / (every third point) stops inside one
+                    js = {m} | ({rng.randint(1, m - 1)} if i % 3 == 0 else set())
+                else:                               # ... x every progress of the zombie
+                    js = range(0, m + 1)
+                specs += [(c, ("ij", i, j)) for j in sorted(js)]
+        specs += [(ctx.seed * 100000 + 700 + k, ("random", rng.getrandbits(30), rng.choice([0.2, 0.5]))) for k in range(n_rand)]
+        rng.shuffle(specs)
+        traces = list(dry)
+        for res in ex.map(_zombie_task, [specs[k::32] for k in range(32)]):
             traces += res
     dl = sum(t["deadlock"] for t in traces)
     if dl:
@@ -511,34 +510,28 @@ def run_zombie(ctx):
     v = judge(ctx, traces, "a stale trial's own worker keeps writing while the sweeper is preempted at every line / SQL statement")
     ctx.sample({"cfg": traces[len(traces) // 2]["cfg"], "events": traces[len(traces) // 2]["ev"][:24]})
     if not ctx.violations:
-        good = next((t for t in traces if t["tid"] in v.accepted and any(e["e"] == "write_end" and e["ok"] == 1 for e in t["ev"])
-                     and any(x["hist"] and x["hist"][-1] == next(e["n"] for e in t["ev"] if e["e"] == "write_start")
-                             for x in t["ev"][-1]["trials"])), None)
-        if good is None:
-            raise tlc.MachineryError("zombie family: no accepted trace with an accepted write and a retry")
-        zn = next(e["n"] for e in good["ev"] if e["e"] == "write_start")
-        w0 = next(e for e in good["ev"] if e["e"] == "write_end" and e["ok"] == 1)
+        # binding self-test: an accepted execution in which a write was accepted before the FAIL call of its trial started and
+        # the trial was retried; the same execution with that entry missing in the retry must be rejected
+        pick = None
+        for t in traces:
+            if t["tid"] not in v.accepted:
+                continue
+            zn = next(e["n"] for e in t["ev"] if e["e"] == "write_start")
+            fs = pos(t, lambda e: e["e"] == "fail_start" and e["n"] == zn)
+            acc = [k for k in pos(t, lambda e: e["e"] == "write_end" and e["ok"] == 1) if t["ev"][k]["k"] != "i"]
+            if fs and acc and acc[0] < fs[0] and any(x["hist"] and x["hist"][-1] == zn for x in t["ev"][-1]["trials"]):
+                pick = (t, zn, t["ev"][acc[0]])
+                break
+        if pick is None:
+            raise tlc.MachineryError("zombie family: no accepted execution with a write accepted before the FAIL call and a retry")
+        good, zn, w0 = pick
 
         def drop_written(t):
             for x in t["ev"][-1]["trials"]:
                 if x["hist"] and x["hist"][-1] == zn:
                     x["c"] = [c for c in x["c"] if not (c["k"] == w0["k"] and c["key"] == w0["key"])]
-        # the first accepted write of `good` may overlap the FAIL call; make the self-test independent of that: use a trace in
-        # which it returned before the FAIL call started if there is one
-        for t in traces:
-            if t["tid"] not in v.accepted:
-                continue
-            fs = pos(t, lambda e: e["e"] == "fail_start")
-            acc = [k for k in pos(t, lambda e: e["e"] == "write_end" and e["ok"] == 1)
-                   if t["ev"][k]["k"] != "i" or t["cfg"]["inherit"] == 1]
-            z2 = next(e["n"] for e in t["ev"] if e["e"] == "write_start")
-            if fs and acc and acc[0] < fs[0] and any(x["hist"] and x["hist"][-1] == z2 for x in t["ev"][-1]["trials"]):
-                good, zn, w0 = t, z2, t["ev"][acc[0]]
-                break
-        else:
-            raise tlc.MachineryError("zombie family: no accepted trace with a write that returned before the FAIL call")
         ctx.binding_selftest("HeartbeatTrace", "HeartbeatTrace", {"tid": 1, "cfg": good["cfg"], "ev": good["ev"]}, drop_written,
-                             "retry lacks a write accepted before the FAIL")
+                             "retry lacks a write accepted before the FAIL call")
 
 
 def run(ctx):
@@ -552,7 +545,7 @@ def run(ctx):
                 "the trial had when it became FAIL; "
                 "every execution validated by TLC against HeartbeatTrace; distinct = distinct event sequences with a callback")
     r = tlc.require_model("HeartbeatMC", "HeartbeatMC_q",
-                          must_cover=["ReadStale", "FailCAS", "StartCallbacks", "Callback", "EndSweep", "RetryDies", "Crash"],
+                          must_cover=["ReadStale", "FailCAS", "StartCallbacks", "Callback", "EndSweep", "RetryDies", "Crash", "ZombieWrite"],
                           timeout=3000)
     ctx.model(r, "HeartbeatMC (atomic compare-and-set)")
     r = tlc.expect_violation("HeartbeatMC", "HeartbeatMC_sqlite", "FailedByAtMostOne", timeout=600)
@@ -587,6 +580,8 @@ def run(ctx):
         ctx.binding_selftest("HeartbeatTrace", "HeartbeatTrace", {"tid": 1, "cfg": good["cfg"], "ev": good["ev"]}, wrong_hist,
                              "retry history altered")
     ctx.assumptions += ["RDB = SQLite (the only RDB available); staleness is set by writing the heartbeat rows",
+                        "zombie family: a write call answered `database is locked` (StorageInternalError) had no effect; a write "
+                        "call that overlaps the FAIL call may count on either side of the FAIL",
                         "worker death = the worker is never scheduled again",
                         "known finding K1 (double FAIL across SQLite connections) matched by shape on the concurrent family"]
 
@@ -594,7 +589,7 @@ def run(ctx):
 def replay(ctx, data):
     r = data["replay"]
     if r["mode"] == "zombie":
-        traces = _zombie_task(((r["seed"], r["sched"]), "one"))
+        traces = _zombie_task([(r["seed"], r["sched"])])
     else:
         traces = _task((r["mode"], [r["seed"]]))
     judge(ctx, traces, "replay")
